@@ -48,7 +48,7 @@ pub fn run_other_engine(name: &str, spec: &Value, idx: usize) -> Value {
 
 /// rebuild a state by re-executing a history (no checks)
 pub fn rebuild<S: Sut>(uni: &Universe, hist: &[Op], key_opts: KeyOpts) -> Option<St<S>> {
-    let cx = Cx { uni, canonical: false, deep: false };
+    let cx = Cx { uni, canonical: false, deep: false, deep_find_sides: true };
     let mut st: St<S> = initial(uni, key_opts);
     for op in hist {
         let mut map = st.map.clone();
@@ -68,7 +68,7 @@ pub fn rebuild<S: Sut>(uni: &Universe, hist: &[Op], key_opts: KeyOpts) -> Option
 /// on the final state (and on the state after every `obs_every`-th step)
 pub fn run_history_checked<S: Sut>(uni: &Universe, hist: &[Op], observers: &[(&'static str, Observer<S>)], obs_every: usize) -> (Vec<(Viol, usize, String)>, u64, u64) {
     let key_opts = KeyOpts { reps: false, layout: false, no_free: false };
-    let cx = Cx { uni, canonical: false, deep: false };
+    let cx = Cx { uni, canonical: false, deep: false, deep_find_sides: true };
     let mut st: St<S> = initial(uni, key_opts);
     let mut out: Vec<(Viol, usize, String)> = vec![];
     let (mut transitions, mut evals) = (0u64, 0u64);
@@ -128,7 +128,7 @@ fn op_from_json(v: &Value) -> Op {
 
 /// re-execute a recorded explore counterexample; returns the violations observed at the end
 fn replay_explore<S: Sut>(uni: &Universe, hist: &[Op], at: &str, alpha: Alphabet, key_opts: KeyOpts, observers: &[(&'static str, Observer<S>)], deep: bool) -> Vec<Viol> {
-    let cx = Cx { uni, canonical: alpha == Alphabet::Canonical, deep };
+    let cx = Cx { uni, canonical: alpha == Alphabet::Canonical, deep, deep_find_sides: true };
     let mut st: St<S> = initial(uni, key_opts);
     let mut out = vec![];
     for (i, op) in hist.iter().enumerate() {
